@@ -331,7 +331,24 @@ class Intervals:
             a = ev(e[2])
             if e[1] == 'Neg':
                 return Ival(-a.hi, -a.lo)
-            return Ival(-INF, INF) if e[1] != 'Not' else Ival(0, 1)
+            if e[1] != 'Not':
+                return Ival(-INF, INF)
+            # `!x` is logical only for booleans; on an integer it is the bitwise complement (e.g. `!15` as an alignment mask)
+            x = e[2]
+            while isinstance(x, tuple) and x[0] in ('cast',):
+                x = x[-1]
+            if isinstance(x, tuple) and x[0] == 'const':
+                ty, v = x[1], x[2]
+                if ty == 'bool' or isinstance(v, bool):
+                    return Ival(0, 1)
+                if isinstance(v, int) and ty in TYMAX and TYMIN.get(ty, 0) == 0:
+                    return Ival(TYMAX[ty] - v, TYMAX[ty] - v)
+                return Ival(-INF, INF)
+            if isinstance(x, tuple) and ((x[0] == 'bin' and x[1] in ('Eq', 'Ne', 'Lt', 'Le', 'Gt', 'Ge')) or (x[0] == 'un' and x[1] == 'Not')):
+                return Ival(0, 1)
+            if isinstance(x, tuple) and x[0] == 'call':
+                return Ival(0, 1) if a.lo >= 0 and a.hi <= 1 else Ival(-INF, INF)
+            return Ival(0, 1) if (a.lo, a.hi) == (0, 1) and isinstance(x, tuple) and x[0] in ('field', 'local', 'param') and False else Ival(-INF, INF)
         if k == 'call':
             return self._call(fn, block, e, depth, gb, seen)
         if k == 'param':
